@@ -1057,7 +1057,12 @@ public:
     if (!RD->isCompleteDefinition() || RD->isLambda())
       return;
     std::string Rel;
-    if (!fileUnderRoot(RD->getLocation(), Rel))
+    SourceLocation CL = RD->getLocation();
+    // an explicitly instantiated specialisation is located at the point of
+    // instantiation: file it under the template it was instantiated from
+    if (const CXXRecordDecl *Pat = RD->getTemplateInstantiationPattern())
+      CL = Pat->getLocation();
+    if (!fileUnderRoot(CL, Rel))
       return;
     bool Dep = RD->isDependentContext();
     if (!EmittedClasses.insert(RD->getCanonicalDecl()).second)
@@ -1074,7 +1079,7 @@ public:
         J.attribute("targs", A);
       }
       J.attribute("file", Rel);
-      J.attribute("line", lineOf(RD->getLocation()));
+      J.attribute("line", lineOf(CL));
       if (Dep)
         J.attribute("dependent", true);
       if (!Dep) {
